@@ -251,7 +251,7 @@ def run(ctx):
         og = ctx.og(dd)
         stop = R.call_blocks(dd, ("lsm_tree::stop_signal::StopSignal::send",))
         ld = [b for b, t in dd.calls() if A.cname(t) == "std::sync::atomic::Atomic::<usize>::load" and any(x.k == "field" and x.a[1] == "active_thread_counter" for x in A.walk(og.of_operand(t["args"][0])))]
-        snd = [b for b, t in dd.calls() if A.cname(t).startswith("flume::Sender") and A.cname(t).endswith("::send")]
+        snd = [b for b, t in dd.calls() if A.cname(t).startswith("flume::Sender") and (A.cname(t).endswith("::send") or A.cname(t).endswith("::try_send"))]
         clears = {"flush_manager": [b for b, t in dd.calls() if A.cname(t) == "flush::manager::FlushManager::clear"],
                   "keyspaces": [b for b, t in dd.calls() if A.cname(t).endswith("HashMap::<K, V, S, A>::clear") and any(x.k == "field" and x.a[1] == "keyspaces" for x in A.walk(og.of_operand(t["args"][0])))],
                   "journal_manager": [b for b, t in dd.calls() if A.cname(t) == "journal::manager::JournalManager::clear"]}
@@ -275,6 +275,14 @@ def run(ctx):
                 exit_ok = all(A.dominates(dd, sw, c) for v in clears.values() for c in v)
             ok2 = in_loop and closes and exit_ok
         ctx.ob("R-C17.4", dd, "waits-for-workers", ok2, "loops on active_thread_counter, sending Close, and only then cleans up" if ok2 else "drop does not wait for the worker threads (counter loop with Close messages) before cleaning up")
+        # the wait loop must not block on the queue whose only consumers are the threads it waits for
+        blocking = [b for b in snd if A.cname(dd.term(b)).endswith("::send") and A.in_cycle(dd, b)]
+        nonblock = [b for b, t in dd.calls() if A.cname(t).startswith("flume::Sender") and A.cname(t).endswith("::try_send") and A.in_cycle(dd, b)]
+        ctx.ob("R-C17.4", dd, "wait-loop-never-blocks-on-worker-queue", not blocking and bool(nonblock + blocking),
+               "Close messages are offered with try_send: the loop keeps polling the thread counter" if (not blocking and nonblock)
+               else "the wait loop uses the BLOCKING flume::Sender::send on the bounded worker queue: when the queue is full and the last worker exits between the counter check and the send, nobody receives any more and drop never returns (observed as hanging drops under CPU load)",
+               dd.loc(blocking[0]) if blocking else "")
+        snd = snd + nonblock
         for name, bs in clears.items():
             okc = bool(bs) and all(A.dominates(dd, b, dd.return_blocks()[0]) for b in bs[:1])
             ctx.ob("R-C17.4", dd, "breaks-cycle-%s" % name, okc, "%s.clear() runs on every path of drop" % name if okc else "%s is not cleared on every path: an Arc cycle keeps the lock guard alive after the last handle is dropped" % name)
